@@ -38,7 +38,10 @@ def gen_cfgs(ctx, n):
     while len(cfgs) < n:
         cfg = kfacsim.Config(rng, world=rng.choice([1, 1, 2, 3, 4, 5, 8]))
         cfg.hyper['factor_decay'] = rng.choice([Fraction(1, 2), Fraction(3, 4), Fraction(15, 16), Fraction(1),
-                                                [Fraction(1, 2), Fraction(3, 4), Fraction(7, 8), Fraction(19, 20)]])
+                                                [Fraction(1, 2), Fraction(3, 4), Fraction(7, 8), Fraction(19, 20)],
+                                                # a schedule that is exactly 1 on some updates after the first: those updates
+                                                # leave the factor unchanged AND consume their batches
+                                                [Fraction(9, 10), Fraction(1), Fraction(1), Fraction(4, 5), Fraction(1), Fraction(1, 2)]])
         cfg.hyper['factor_update_steps'] = rng.choice([1, 1, 2, 3, [1, 2, 1, 3]])
         cfg.batch = rng.choice([1, 2, 3, 8])
         ops = []
